@@ -406,7 +406,7 @@ func (c *PullClient) getSetupURL(ctrl string) (setupURL *url.URL, err error) {
 
 	setupURL = new(url.URL)
 	*setupURL = *c.url
-	if setupURL.Path[len(setupURL.Path)-1] == '/' {
+	if len(setupURL.Path) > 0 && setupURL.Path[len(setupURL.Path)-1] == '/' { // 路由 URL 可能不带路径
 		setupURL.Path = setupURL.Path + ctrl
 	} else {
 		setupURL.Path = setupURL.Path + "/" + ctrl
